@@ -95,7 +95,9 @@ func vfsGenRepo(r *vfRand, gi int, o vfsGenOpts) *vfsRepo {
 	rp.name = fmt.Sprintf("t%d-r%d-%s", rp.tenant, gi, marker)
 	rp.branches = []string{"main"}
 	if o.branchy {
-		rp.branches = [][]string{{"main"}, {"main", "dev"}, {"main", "HEAD"}, {"HEAD"}, {"HEAD", "dev"}, {"dev", "main"}, {"main", "dev", "HEAD"}}[r.Intn(7)]
+		// incl. branch names that contain one another (main / main-old; a substring match on "main" would also hit "main-old")
+		rp.branches = [][]string{{"main"}, {"main", "dev"}, {"main", "HEAD"}, {"HEAD"}, {"HEAD", "dev"}, {"dev", "main"}, {"main", "dev", "HEAD"},
+			{"main", "main-old"}, {"main-old", "main"}, {"main-old"}, {"HEAD", "main-old", "main"}, {"main-old", "dev"}}[r.Intn(12)]
 	}
 	if o.subrepos && r.Chance(30) {
 		rp.subs = append(rp.subs, vfsSub{path: "sub0", name: "subrepo0-" + marker, url: "http://subhost0-" + marker + "/{{.Path}}", frag: "#S0-" + marker})
@@ -352,7 +354,7 @@ type vfsQ struct {
 
 func (rp *vfsRepo) nameID() uint64 { return 100 + uint64(rp.gi) }
 
-var vfsBranchID = map[string]uint64{"HEAD": 1, "main": 2, "dev": 3, "": 4, "ma": 5}
+var vfsBranchID = map[string]uint64{"HEAD": 1, "main": 2, "dev": 3, "": 4, "ma": 5, "main-old": 6}
 var vfsMetaID = map[string]uint64{"yes": 1, "no": 2, "maybe": 3}
 
 func vfsDocsTerm(repos []*vfsRepo, f func(rp *vfsRepo, dc *vfsDoc) bool) string {
